@@ -34,8 +34,8 @@ def mapOut {α β} (f : α → β) : Out α → Out β
 mutual
 def skipBin (e : Endian) : Nat → Option Nat → TType → Bytes → Out Bytes
   | 0, _, _, _ => .fuel
-  | _, some 0, _, _ => .err .depth
   | f+1, d, t, bs =>
+    if d = some 0 then .err .depth else
     let d' := d.map (· - 1)
     match t with
     | .bool | .i8 => mapOut (·.2) (Binary.takeN 1 bs)
